@@ -276,8 +276,8 @@ func c20ExtProd(c *Ctx, ps *c20PS, sk *rlwe.SecretKey, sInts []int64, ctIn *rlwe
 		eval.ExternalProduct(ct, rg, out)
 		return "ok"
 	})
-	fast := lp == -1 && lq == 0 && ps.Q[0]>>29 == 0
 	shape := c20Shape(rg)
+	fast := lp == -1 && lq == 0 && c20Acc32Fits(ps.Q[0], shape[0])
 	path := "single"
 	if fast {
 		path = "fast32"
@@ -314,8 +314,6 @@ func c20ExtProd(c *Ctx, ps *c20PS, sk *rlwe.SecretKey, sInts []int64, ctIn *rlwe
 	vacuous := new(big.Int).Lsh(bound, 2).Cmp(Q) >= 0
 	key, why := "", ""
 	switch {
-	case mode == "api" && lp == -1:
-		key, why = "rgsw-enc-nop-montgomery", "rows from Encrypt without P carry the error times 2^-64"
 	case !inplace && lp >= 1:
 		key, why = "extprod-oop-multip", "out of place with levelP>=1 divides the old content of opOut"
 	case fast && w == 0:
@@ -378,9 +376,6 @@ func c20GenRGSW(c *Ctx) {
 		fl := [][2]bool{{false, false}, {false, true}, {true, false}}[ci%3]
 		ptNTT, ptMont := fl[0], fl[1]
 		modes := []string{"api"}
-		if lp == -1 {
-			modes = append(modes, "rep")
-		}
 		for _, mode := range modes {
 			rg := c20Encrypt(c, ps, sk, sInts, g, lq, lp, w, mode, ptNTT, ptMont)
 			c20RowsNoise(c, ps, sk, rg, g, w, mode)
@@ -391,9 +386,6 @@ func c20GenRGSW(c *Ctx) {
 				if !c.Thorough() {
 					break
 				}
-			}
-			if mode == "api" && lp == -1 {
-				continue // homomorphisms are exercised on sound ciphertexts
 			}
 			if ci%3 == 0 || c.Thorough() {
 				c20Homomorphisms(c, ps, sk, sInts, rg, g, lq, lp, w, mode)
@@ -476,9 +468,6 @@ func c20RowsNoise(c *Ctx, ps *c20PS, sk *rlwe.SecretKey, rg *rgsw.Ciphertext, g 
 		detail = fmt.Sprintf("max row error=%d bound=%d mode=%s", worst, uint64(ps.params.NoiseBound())+1, mode)
 	}
 	key := "rgsw-rows-noise"
-	if mode == "api" && lp == -1 {
-		key = "rgsw-enc-nop-montgomery"
-	}
 	c.Probe("rgsw_rows_noise", fmt.Sprintf("%s mode=%s seed=%d line=%d", c20ParTokens(ps, lq, lp, w), mode, c.Seed, c.N), key, detail)
 	pt := ps.rgswPlaintext(g, lq, true, true)
 	res := Try(func() string {
@@ -605,7 +594,7 @@ func c20HomProbe(c *Ctx, ps *c20PS, sk *rlwe.SecretKey, sInts []int64, rg *rgsw.
 	ct := c20RandCt(c, ps, sk, lq, 0)
 	phaseIn := ps.phaseBig(ct, sk, lq)
 	eval := rgsw.NewEvaluator(ps.params, nil)
-	fast := lp == -1 && lq == 0 && ps.Q[0]>>29 == 0
+	fast := lp == -1 && lq == 0 && c20Acc32Fits(ps.Q[0], c20Shape(rg)[0])
 	wraps := fast && c20Fast32Wraps(ps, ct, rg)
 	eval.ExternalProduct(ct, rg, ct)
 	phaseOut := ps.phaseBig(ct, sk, lq)
@@ -635,6 +624,14 @@ func c20HomProbe(c *Ctx, ps *c20PS, sk *rlwe.SecretKey, sInts []int64, rg *rgsw.
 
 // ---------- the 32-bit path at word level ----------
 
+// c20Acc32Fits mirrors the guard acc32BitFits of core/rgsw/evaluator.go (fix C20-4).
+func c20Acc32Fits(q uint64, d int) bool {
+	if q>>29 != 0 || d < 1 {
+		return false
+	}
+	return uint64(2*d) <= ^uint64(0)/((q-1)*(6*q-2))
+}
+
 // c20Fast32Terms recomputes, with the public ring functions, the operands of the accumulator of
 // externalProduct32Bit: for every term k the stored row values (component 0 and 1) and the lazily
 // transformed digit.
@@ -644,6 +641,9 @@ func c20Fast32Terms(ps *c20PS, ct *rlwe.Ciphertext, rg *rgsw.Ciphertext) (R0, R1
 	n := ps.N()
 	pw2 := rg.Value[0].BaseTwoDecomposition
 	mask := uint64((1 << pw2) - 1)
+	if mask == 0 {
+		mask = 0xFFFFFFFFFFFFFFFF
+	}
 	buf := ringQ.NewPoly()
 	for i, el := range rg.Value {
 		ringQ.INTT(ct.Value[i], buf)
@@ -705,15 +705,9 @@ func c20Gen32(c *Ctx) {
 		sInts := ps.secretInts(sk)
 		for rep := 0; rep < reps; rep++ {
 			g := c20Message(c, ps.N(), rep)
-			// sound (repaired) RGSW ciphertext
 			enc := rgsw.NewEncryptor(ps.params, sk)
 			rg := rgsw.NewCiphertext(ps.params, 0, -1, k.w)
-			if err := enc.EncryptZero(rg); err != nil {
-				panic(err)
-			}
-			ps.mformRGSW(rg)
-			m := ps.rgswPlaintext(g, 0, true, true)
-			if err := rlwe.AddPolyTimesGadgetVectorToGadgetCiphertext(m.Value, []rlwe.GadgetCiphertext{rg.Value[0], rg.Value[1]}, *ps.params.RingQP(), m.Value); err != nil {
+			if err := enc.Encrypt(ps.rgswPlaintext(g, 0, true, false), rg); err != nil {
 				panic(err)
 			}
 			ct := c20RandCt(c, ps, sk, 0, rep%2)
@@ -723,9 +717,18 @@ func c20Gen32(c *Ctx) {
 			eval := rgsw.NewEvaluator(ps.params, nil)
 			eval.ExternalProduct(ct, rg, ct)
 			mrc := ps.params.RingQ().SubRings[0].MRedConstant
-			c.Emit(fmt.Sprintf("ep32raw q=%d mrc=%d r0=%s r1=%s c=%s", q, mrc, Mat(R0), Mat(R1), Mat(C)),
-				Vec(ct.Value[0].Coeffs[0])+"|"+Vec(ct.Value[1].Coeffs[0]))
-			c.Count(fmt.Sprintf("ep32raw:wraps=%v", wraps))
+			fastPath := c20Acc32Fits(q, c20Shape(rg)[0])
+			c.Count(fmt.Sprintf("gen32:fastpath=%v wraps=%v", fastPath, wraps))
+			if fastPath {
+				c.Emit(fmt.Sprintf("ep32raw q=%d mrc=%d r0=%s r1=%s c=%s", q, mrc, Mat(R0), Mat(R1), Mat(C)),
+					Vec(ct.Value[0].Coeffs[0])+"|"+Vec(ct.Value[1].Coeffs[0]))
+			}
+			// the guard's purpose: whenever the fast path is taken the accumulator does not wrap
+			gd := ""
+			if fastPath && wraps {
+				gd = fmt.Sprintf("q=%d w=%d d=%d: fast path taken and the accumulator wraps", q, k.w, c20Shape(rg)[0])
+			}
+			c.Probe("acc32_guard", fmt.Sprintf("q=%d w=%d d=%d fast=%d", q, k.w, c20Shape(rg)[0], c20B2i(fastPath)), "extprod32-overflow", gd)
 			// reference: the general algorithm on the same operands (exact modular inner product)
 			ref0, ref1 := c20Fast32Reference(ps, R0, R1, C)
 			same := true
@@ -751,7 +754,7 @@ func c20Gen32(c *Ctx) {
 			dsum, recomb := ps.digitSum(0, -1, k.w, c20Shape(rg), true)
 			bound := ps.extProdNoiseBound(0, -1, dsum, c20L1(sInts))
 			key := "extprod-noise"
-			if wraps {
+			if wraps && fastPath {
 				key = "extprod32-overflow"
 			} else if !recomb {
 				key = "base2-digit-count"
@@ -901,9 +904,7 @@ func c20GenEncFlags(c *Ctx) {
 					}
 					A0, A1, E0, E1 := tw.replayRGSW(lq, lp, c20Shape(ct), true)
 					gRows := ps.rowsFromInts(g, lq)
-					if ntt && mont {
-						gRows = stale
-					}
+					_ = stale // before fix C20-1 an NTT+Montgomery plaintext made Encrypt encrypt this buffer content
 					c.Emit(fmt.Sprintf("rgsw_enc %s mode=api s=%s g=%s a0=%s e0=%s a1=%s e1=%s", c20ParTokens(ps, lq, lp, w),
 						c20I64Vec(sInts), Mat(gRows), c20Polys(A0), c20IVecs(E0), c20Polys(A1), c20IVecs(E1)),
 						IVec(c20Shape(ct))+"|"+c20RGSWOut(ps.rgswPolys(ct)))
@@ -927,9 +928,6 @@ func c20GenEncFlags(c *Ctx) {
 						d2 = fmt.Sprintf("max row error=%d bound=%d ntt=%v mont=%v reuse=%v", worst, uint64(ps.params.NoiseBound())+1, ntt, mont, reuse)
 					}
 					key := "rgsw-enc-copylvl-reversed"
-					if lp == -1 {
-						key = "rgsw-enc-nop-montgomery"
-					}
 					c.Probe("rgsw_enc_message", par, key, d2)
 				}
 			}
